@@ -490,7 +490,7 @@ def replay_file(prop, path):
         import thermosteam  # noqa
         ob = d['obligation'].split('/')
         name = ob[2]
-        desc = next(dsc for nm, dsc in m.kernel_table() if nm == name)
+        desc = next(dsc for nm, dsc in m.kernel_table() if nm == name.split('.')[-1] and (('logical' in dsc) == name.startswith('SLV.')))
         failed = m.replay_native(name, list(desc), d['inputs'])
         print(json.dumps({'failed': failed}, indent=1))
         if failed:
